@@ -11,6 +11,7 @@ declare -A PKG=(
  [sender-cache-ignores-signer]=./types/
  [receipt-logs-in-map-order]=./mainchain/blockchain/
  [seeded-rebloom-skips-deleted-slots]=./kai/state/snapshot/
+ [seeded-g-difflayer-destruct-checked-before-account-data]=./kai/state/snapshot/
  [seeded-f-difftodisk-keeps-destructed-slots-in-cache]=./kai/state/snapshot/
 )
 printf "%-36s %-12s %-8s %s\n" mutant repo-tests quick-rc signatures
